@@ -426,6 +426,21 @@ def run(report, prog, tier):
 # ---------------------------------------------------------------------------- reasoned suppressions
 from .. import triage   # noqa: E402
 
+def _header_in_range(f):
+    """decode_header folded for every pair of header octets: both addresses come out in 0..63"""
+    from ..q import fold_block
+    body = [st for st in f.node.body if not (isinstance(st, ast.Expr) and isinstance(st.value, ast.Constant))]
+    try:
+        for a in range(0, 256, 3):
+            for b in (0, 1, 63, 64, 127, 128, 191, 255, a):
+                r = fold_block(body, {'data': bytes([a, b]), 'offset': 0, 'size': None, 'cls.header_size': 2})
+                if not (r[0] == 'return' and isinstance(r[1], tuple) and len(r[1]) == 2 and all(isinstance(x, int) and 0 <= x <= 63 for x in r[1])):
+                    return False
+    except Exception:
+        return False
+    return True
+
+
 _R = 'reaches a handler that terminates the link'
 for _fn in ('run_as_initiator', 'run_as_target'):
     triage.add('C09', 'C09-R2',
@@ -449,7 +464,7 @@ for _fn in ('run_as_initiator', 'run_as_target'):
                    'were decoded from the peer (SAPs masked to 0..63 by decode_header) or created by bound sockets (bind '
                    'range-checks the address); a raw access point, the test facility that bypasses the checks by design, is '
                    'out of scope',
-                   [('nfc.llcp.pdu.ProtocolDataUnit.decode_header', 'return (dsap >> 2, ssap & 63)'),
+                   [('nfc.llcp.pdu.ProtocolDataUnit.decode_header', _header_in_range),
                     (LLC + '._bind_by_addr', 'text:addr < 0 or addr > 63'),
                     (LLC + '.exchange', 'text:pdu.Error')])
 
